@@ -21,8 +21,8 @@ const HISTORIES: u64 = 4;
 
 pub fn plan(tier: &str) -> u64 {
     match tier {
-        "quick" => 320,
-        _ => 6000,
+        "quick" => 1600,
+        _ => 12000,
     }
 }
 
@@ -96,10 +96,12 @@ fn positions(counts: &BTreeMap<(OpKind, PathClass), u64>, thorough: bool) -> Vec
             occ.insert(1.min(n - 1));
         } else {
             occ.insert(0);
+            occ.insert(1.min(n - 1));
             occ.insert(n / 2);
             occ.insert(n - 1);
             if n > 6 {
                 occ.insert(n / 4);
+                occ.insert(3 * n / 4);
             }
         }
         for o in occ {
@@ -343,9 +345,11 @@ pub fn run_case(tier: &str, seed: u64, idx: u64) -> CaseOut {
     let combo = j % (n_pos * 3);
     let (kind, class, nth) = pos[(combo / 3) as usize];
     let mode = modes[(combo % 3) as usize];
-    let fault = Fault { kind, class, nth, mode };
+    // every fourth combination reports the error only after the call has taken effect
+    let after_effect = kind.is_mutating() && (combo / 3) % 4 == 1;
+    let fault = Fault { kind, class, nth, mode, after_effect };
     let ctx = json!({"history": history, "config": script.cfg.describe(), "fault": {"call": kind.name(), "on": class.name(), "occurrence": nth,
-        "of_about": pilot.counts.get(&(kind, class)), "mode": mode.name()}});
+        "of_about": pilot.counts.get(&(kind, class)), "mode": mode.name(), "error_reported_after_effect": after_effect}});
     let result = run_script(&mut out, &script, Some(fault), &ctx);
     out.add("fault_positions_available", n_pos * 3);
     if let Some(r) = result {
@@ -353,7 +357,7 @@ pub fn run_case(tier: &str, seed: u64, idx: u64) -> CaseOut {
         if fired && r.ops_after_fault > 0 {
             let total = pilot.counts.get(&(kind, class)).copied().unwrap_or(1).max(1);
             let bucket = match nth * 4 / total { 0 => "first-quarter", 1 => "second-quarter", 2 => "third-quarter", _ => "last-quarter" };
-            out.nontrivial(format!("{}/{}/{}/{}", kind.name(), class.name(), bucket, mode.name()));
+            out.nontrivial(format!("{}/{}/{}/{}{}", kind.name(), class.name(), bucket, mode.name(), if after_effect { "/after-effect" } else { "" }));
             out.add(&format!("fired.{}.{}", kind.name(), class.name()), 1);
         } else if !fired {
             out.add("fault_not_reached", 1);
